@@ -533,7 +533,7 @@ where
         let mut h = std::collections::hash_map::DefaultHasher::new();
         bytes.hash(&mut h);
         let mut x = h.finish() | 1;
-        while buf.len() < bytes.len() + (256 << 10) {
+        while buf.len() < bytes.len() + (4 << 20) {
             buf.extend_from_slice(&splitmix(&mut x).to_le_bytes());
         }
         let mut runner = TestRunner::new_with_rng(cfg, TestRng::from_seed(RngAlgorithm::PassThrough, &buf));
